@@ -145,14 +145,17 @@ func handleZADD(params internal.HandlerFuncParams) ([]byte, error) {
 		if !ok {
 			return nil, fmt.Errorf("value at %s is not a sorted set", key)
 		}
+		var before MemberObject
+		if incr != nil {
+			before = set.Get(members[0].Value)
+		}
 		count, err := set.AddOrUpdate(members, updatePolicy, comparison, changed, incr)
 		if err != nil {
 			return nil, err
 		}
 		// If INCR option is provided, return the new score value
 		if incr != nil {
-			m := set.Get(members[0].Value)
-			return []byte(fmt.Sprintf("+%f\r\n", m.Score)), nil
+			return zaddIncrReply(set, members[0].Value, before, updatePolicy), nil
 		}
 
 		return []byte(fmt.Sprintf(":%d\r\n", count)), nil
@@ -168,8 +171,22 @@ func handleZADD(params internal.HandlerFuncParams) ([]byte, error) {
 			return nil, err
 		}
 	}
+	if incr != nil {
+		return zaddIncrReply(set, members[0].Value, MemberObject{}, updatePolicy), nil
+	}
 
 	return []byte(fmt.Sprintf(":%d\r\n", set.Cardinality())), nil
+}
+
+// zaddIncrReply is the reply of ZADD ... INCR: the member's new score, or nil when the
+// NX / XX policy kept the increment from being applied.
+func zaddIncrReply(set *SortedSet, member Value, before MemberObject, updatePolicy interface{}) []byte {
+	policy, _ := updatePolicy.(string)
+	after := set.Get(member)
+	if !after.Exists || (before.Exists && strings.EqualFold(policy, "nx")) {
+		return []byte("$-1\r\n")
+	}
+	return []byte(fmt.Sprintf("+%f\r\n", after.Score))
 }
 
 func handleZCARD(params internal.HandlerFuncParams) ([]byte, error) {
@@ -449,7 +466,7 @@ func handleZINCRBY(params internal.HandlerFuncParams) ([]byte, error) {
 	if _, err = set.AddOrUpdate(
 		[]MemberParam{
 			{Value: member, Score: increment}},
-		"xx",
+		nil,
 		nil,
 		nil,
 		"incr"); err != nil {
